@@ -121,7 +121,9 @@ def axiom_note(name):
         return STD_AXIOMS[name]
     if name.startswith("FloatAxioms."):
         return "Coq standard library (FloatAxioms: specification of the primitive floats)"
-    if "." not in name or name.startswith(("PrimInt63.", "PrimFloat.", "Uint63.")):
+    if name.startswith("Uint63."):
+        return "Coq standard library (Uint63: axioms specifying the primitive 63-bit integers)"
+    if "." not in name or name.startswith(("PrimInt63.", "PrimFloat.")):
         return "Coq primitive float / int63 type or operation (kernel primitive, listed by Print Assumptions)"
     return "Coq standard library"
 
